@@ -194,10 +194,10 @@ def brWalk : Nat → Option (H2 × Nat) → Bytes → List Tok
         | .ok (.v2 h, r') =>
           Tok.h2 h.base h.lod h.count.toNat (h.attrs % 8 != 0) h.plen ::
             brWalk fuel (if h.count.toNat = 0 then none else some (h, h.count.toNat)) r'.bs
-        | .ok (.v1 h, r') =>
+        | .ok (.v1 h hts, r') =>
           -- a v0/v1 message: the fixed header, then readMessageV1's `readBytesWith(key)`, `readBytesWith(val)`
           let rest := r'.bs
-          let ts : Int := if h.magic = 1 then (match RW.readI64 (bs.drop 18) with | some (t, _) => t | none => 0) else -1
+          let ts : Int := if h.magic = 1 then hts else -1
           Tok.h1 h.magic.toNat h.off (h.attrs % 8 != 0) ::
             if rest.isEmpty then [] else      -- nothing left: the stream ends, no `cut` token
             match BR.readBodyV1 ⟨rest, rest.length⟩ with
@@ -621,11 +621,11 @@ def step (line : String) : String :=
           let actual := tokenize tokCfg (bytes.length + 1) .hdr bytes
           let plainV2 := items.all fun it => match it with | .b2 _ _ false _ _ => true | .m .. => true | _ => false
           let go := brWalk (bytes.length + 1) none bytes
-          -- the walk `walk_bytes` is about (Model/ByteWalk.lean), on message sets of uncompressed v2 batches only
-          let onlyV2 := items.all fun it => match it with | .b2 _ _ false _ _ => true | _ => false
+          -- the walk `walk_bytes` is about (Model/ByteWalk.lean): uncompressed v2 batches and v0/v1 messages
           let wk := BR.walk (fun fts v => digestOf v.key v.value (fts + v.tsDelta) (v.headers.map fun x => ⟨x.1, x.2⟩))
-            (bytes.length + 1) none bytes
-          if onlyV2 && wk != expected then
+            (fun h ts k v => digestOf k v (if h.magic = 1 then ts else -1) [])
+            (bytes.length + 1) .hdr bytes
+          if plainV2 && wk != expected then
             answer s!"walk-bytes-diff:{repr (wk.zip expected |>.find? (fun p => p.1 != p.2))}" false
           else if plainV2 && go != expected then
             answer s!"go-bytes-diff:{repr (go.zip expected |>.find? (fun p => p.1 != p.2))}" false
